@@ -39,6 +39,10 @@
 //     titles. It must not panic on unexpected code (main recovers and replaces the section by
 //     empty definitions listed in `loadProblems`, so declare the names first with w.Declare);
 //
+//     An extractor whose facts only one property needs registers with registerFile(title, "GeneratedCxx.lean", fn)
+//     instead: its definitions go to that file (next to the -out file), which only that property's modules
+//     import, so that nothing it writes can break the build of the others (c17.go);
+//
 //  3. if it reads files other than .go/.tmpl/go.mod, add their extension to digestExts (main.go);
 //
 //  4. never remove or rename a definition that a Lean file imports. `-v` prints a listing with
@@ -104,12 +108,33 @@ func (s *Section) Def(name, elem string, items []string) {
 type extractor struct {
 	title string
 	fn    func(p *Program, w *Section)
+	file  string // "" = a section of the -out file; otherwise a file of its own next to it (registerFile)
 }
 
 var extractors []extractor
 
 func register(title string, fn func(p *Program, w *Section)) {
-	extractors = append(extractors, extractor{title, fn})
+	extractors = append(extractors, extractor{title: title, fn: fn})
+}
+
+// registerFile registers an extractor whose facts go to a Lean file of their own (`file`, written next
+// to the -out file, same namespace and header) instead of a section of the -out file, so that only the
+// modules that import that file depend on it. A crash of the extractor or a problem it reports is listed
+// in its own file, never in the -out file.
+func registerFile(title, file string, fn func(p *Program, w *Section)) {
+	extractors = append(extractors, extractor{title: title, fn: fn, file: file})
+}
+
+// writeIfChanged writes content to path unless the file already has it.
+func writeIfChanged(path string, content []byte) error {
+	if old, err := os.ReadFile(path); err == nil && bytes.Equal(old, content) {
+		return nil
+	}
+	tmp := path + ".tmp"
+	if err := os.WriteFile(tmp, content, 0o644); err != nil {
+		return err
+	}
+	return os.Rename(tmp, path)
 }
 
 // leanStr renders a Lean string literal.
@@ -258,7 +283,17 @@ func main() {
 	}
 	if *out != "" && !*force && !*verbose {
 		if old, err := os.ReadFile(*out); err == nil && readStamp(*out) == stampText(digest, old) {
-			return
+			missing := false
+			for _, e := range extractors {
+				if e.file != "" {
+					if _, err := os.Stat(filepath.Join(filepath.Dir(*out), e.file)); err != nil {
+						missing = true
+					}
+				}
+			}
+			if !missing {
+				return
+			}
 		}
 	}
 
@@ -271,12 +306,40 @@ func main() {
 
 	var body bytes.Buffer
 	for _, e := range extractors {
+		if e.file != "" {
+			continue
+		}
 		sec, problem := runExtractor(e, p)
 		if problem != "" {
 			p.Problems = append(p.Problems, problem)
 		}
 		fmt.Fprintf(&body, "/-! ## %s -/\n\n", sec.title)
 		body.Write(sec.buf.Bytes())
+	}
+	// extractors with a file of their own (only when writing files)
+	for _, e := range extractors {
+		if e.file == "" {
+			continue
+		}
+		sec, problem := runExtractor(e, p)
+		if *out == "" {
+			continue
+		}
+		var fb bytes.Buffer
+		fb.WriteString("-- GENERATED by tools/factgen from the Go sources of the repository under verification.\n")
+		fb.WriteString("-- Regenerated by every ./check run and by setup.sh; do not edit. Data only, no proofs.\n")
+		fb.WriteString("import TmVerif.Facts.Types\n")
+		fb.WriteString("set_option maxRecDepth 8192\n")
+		fb.WriteString("namespace TmVerif.Facts\n\n")
+		fmt.Fprintf(&fb, "/-! ## %s -/\n\n", sec.title)
+		if problem != "" {
+			fmt.Fprintf(&fb, "-- %s\n", strings.ReplaceAll(problem, "\n", " "))
+		}
+		fb.Write(sec.buf.Bytes())
+		fb.WriteString(trailer)
+		if err := writeIfChanged(filepath.Join(filepath.Dir(*out), e.file), fb.Bytes()); err != nil {
+			fmt.Fprintln(os.Stderr, "factgen:", err) // never fatal for the other extractors
+		}
 	}
 
 	var b bytes.Buffer
